@@ -8,7 +8,7 @@ use crate::tok::*;
 
 /// operands of zero-sized elements with extents no allocation can reach: the guard prefix
 /// (conformability first, then the capacity of the output) of all three ownership variants
-fn huge_decisions(out: &mut Out) {
+pub fn huge_decisions(out: &mut Out) {
     use matreex::{Matrix, Order};
     out.case("ew guard decisions on huge zero-sized operands");
     out.nontrivial();
